@@ -72,7 +72,7 @@ def dump_steps(names, only_layer=None):
 BAD_VALUES = [("neg", pkt.jint(-1)), ("maxint", pkt.jint((1 << 63) - 1)), ("minint", pkt.jint(-(1 << 63))),
               ("str", pkt.jstr("7")), ("bool", {"k": "bool", "v": True}), ("null", {"k": "null"}), ("float", {"k": "float"})]
 GOOD_ADDR = {"mac": ["02:11:22:33:44:55", "FF:ff:0:1:a:B"], "ipv4": ["1.2.3.4", "255.0.10.199"],
-             "ipv6": ["::1", "1:2:3:4:5:6:7:8", "fe80::a:B", "ABCD::"]}
+             "ipv6": ["::1", "1:2:3:4:5:6:7:8", "fe80::a:B", "ABCD::", "2001:db8:0:1::5:6:7", "::2:3:4:5:6:7:8", "1:2:3:4:5:6:7::", "::"]}
 BAD_ADDR = {"mac": ["1:2:3:4:5", "1:2:3:4:5:gg", ""], "ipv4": ["1.2.3", "1.2.3.256", "a.b.c.d"], "ipv6": ["1::2::3", "12345::", ":1"]}
 
 
@@ -229,6 +229,57 @@ def truncated_inner_histories(rnd, start):
     return items
 
 
+def odd_frames(rnd, start):
+    """frames the fixed stacks do not have: two 802.1Q tags in a row (assignments to the inner tag and below it), an
+    IPv4 header / a TCP header whose length field is below the minimum (the fields still sit where they sit: an
+    assignment patches exactly its bits; what lies below such a header is not settled and not looked at)"""
+    items = []
+
+    def add(names, raw, pos, prop, val, tag, dump_upto):
+        path = [{"t": "name", "n": x} for x in names[:pos + 1]]
+        hist = [{"op": "read", "path": path, "prop": prop}, {"op": "assign", "path": path, "prop": prop, "val": val}]
+        hist += dump_steps(names[:dump_upto]) + [{"op": "write", "sink": "pcap_write"}, {"op": "read", "path": path, "prop": prop}]
+        items.append({"id": start + len(items), "hdr": pkt.record_header(rnd, len(raw)), "raw": raw, "hist": hist,
+                      "via_dollar": rnd.random() < 0.3, "tag": tag, "check": ["read", "write", "assign"]})
+
+    for names in (["eth", "vlan", "vlan"], ["eth", "vlan", "vlan", "ipv4"], ["eth", "vlan", "vlan", "ipv6", "udp"]):
+        for rep_ in range(2):
+            raw = stack_frame(rnd, names)
+            for pos in range(1, len(names)):
+                kind = names[pos]
+                for prop in pkt.LAYER_PROPS[kind]:
+                    if (kind, prop) in pkt.STRUCTURAL or (kind, prop) in pkt.ADDR_FIELDS:
+                        continue
+                    w = pkt.FIELD_BITS.get((kind, prop))
+                    if (kind, prop) == ("vlan", "dei"):
+                        val = {"k": "bool", "v": rnd.random() < 0.5}
+                    elif w is None:
+                        continue
+                    else:
+                        val = pkt.jint(rnd.randrange(1 << w))
+                    add(names, raw, pos, prop, val, "two-tags %s assign %s[%d].%s" % ("/".join(names[1:]), kind, pos, prop), len(names))
+    for ihl in (0, 1, 3, 4):
+        for names in (["eth", "ipv4"], ["eth", "vlan", "ipv4"]):
+            raw = bytearray(stack_frame(rnd, names) + pkt.rbytes(rnd, 24))
+            off = 14 + 4 * (len(names) - 2)
+            raw[off] = 0x40 | ihl
+            for prop, val in (("ttl", pkt.jint(rnd.randrange(256))), ("id", pkt.jint(rnd.randrange(65536))), ("dscp", pkt.jint(rnd.randrange(64))),
+                              ("dst", pkt.jstr("10.9.8.7")), ("flags", pkt.jint(rnd.randrange(8)))):
+                if prop in pkt.LAYER_PROPS["ipv4"]:
+                    add(names, bytes(raw), len(names) - 1, prop, val, "short-ihl=%d assign ipv4.%s" % (ihl, prop), len(names))
+    for do in (0, 2, 4):
+        names = ["eth", "ipv4", "tcp"]
+        raw = bytearray(stack_frame(rnd, names) + pkt.rbytes(rnd, 8))
+        ihl = raw[14] & 15
+        off = 14 + 4 * ihl
+        raw[off + 12] = (do << 4) | (raw[off + 12] & 15)
+        for prop in ("srcport", "dstport", "window", "seq"):
+            if prop in pkt.LAYER_PROPS["tcp"]:
+                w = pkt.FIELD_BITS[("tcp", prop)]
+                add(names, bytes(raw), 2, prop, pkt.jint(rnd.randrange(1 << min(w, 31))), "short-dataoff=%d assign tcp.%s" % (do, prop), 3)
+    return items
+
+
 def random_histories(rnd, n, start):
     items = []
     for i in range(n):
@@ -270,6 +321,7 @@ def run(rep, tier, seed):
         items += random_histories(rnd, 400 if tier == "quick" else 6000, len(items))
         items += sequence_histories(rnd, len(items))
         items += truncated_inner_histories(rnd, len(items))
+        items += odd_frames(rnd, len(items))
         recs = pkt.run_histories(items, d)
         for it, r in zip(items, recs):
             r["check"] = it["check"]
